@@ -219,8 +219,21 @@ func runLemmas(verbose bool, only string, timeout int) int {
 	if timeout == 0 {
 		timeout = 10
 	}
-	lib.SolveAll(obls, timeout, 5, false)
+	// consistency canaries: the hypotheses of a lemma's proof (induction hypothesis, unfoldings, the lemmas and axioms it
+	// uses) must not prove false
+	var cans []*Obligation
+	for _, o := range obls {
+		cans = append(cans, &Obligation{Name: o.Name + "/consistent", Func: o.Func, Kind: "canary", Assumes: o.Assumes, Goal: False, Canary: true,
+			Reveal: o.Reveal, Lemmas: o.Lemmas})
+	}
+	lib.SolveAll(append(append([]*Obligation{}, obls...), cans...), timeout, 5, false)
 	bad := 0
+	for _, c := range cans {
+		if c.Res.Status == "unsat" {
+			fmt.Printf("VACUOUS  %-50s the hypotheses of this lemma's proof are contradictory\n", c.Name)
+			bad++
+		}
+	}
 	for _, o := range obls {
 		fmt.Printf("%-8s %-50s %s %dms\n", o.Res.Status, o.Name, o.Res.Solver, o.Res.Ms)
 		if o.Res.Status != "unsat" {
@@ -279,6 +292,13 @@ func runCheck(prop, tier, repo string, verbose bool, only string, timeout int) i
 	assumedUsed := map[string]bool{}
 	for _, k := range keys {
 		ct := prog.Contracts.ByKey[k]
+		if ct.Extern && ct.Iface {
+			for _, p := range ct.Props {
+				if p == prop {
+					obls = append(obls, implementsObligations(prog, ct)...)
+				}
+			}
+		}
 		if ct.Extern {
 			continue
 		}
